@@ -51,6 +51,7 @@ REQUIRED = [
     "target:tcp-threads",
     "target:udp-threads",
     "target:tcp-directed-preemption",
+    "sender_timed_out_waiting_for_the_send_lock",
     "directed_pause_points_reached",
     "sender_suspended_while_other_called",
     "busy_errors_observed",
@@ -609,6 +610,82 @@ def tcp_directed_case(ctx, point: tuple[str, int], skip: int = 0) -> str | None:
     return None
 
 
+def tcp_lock_timeout_case(ctx, rng: random.Random) -> str | None:
+    """sender A is blocked mid-packet (nobody reads yet) and holds the send lock; sender B gives up with TimeoutError while waiting for
+    the lock (legitimate: the budget covers the lock wait); sender C then queues with a generous timeout; the peer starts reading. The
+    wire must hold A whole, then C whole; B wrote nothing; nobody but B sees an exception."""
+    from easynetwork.clients.tcp import TCPNetworkClient
+
+    c, s = _dummy_pair()
+    c.setsockopt(socket.SOL_SOCKET, socket.SO_SNDBUF, 16384)
+    s.setsockopt(socket.SOL_SOCKET, socket.SO_RCVBUF, 16384)
+    client = TCPNetworkClient(c, StreamProtocol(JSONSerializer()), retry_interval=rng.choice([0.05, 1.0]))
+    results: dict = {}
+    wire = bytearray()
+    start_reading = threading.Event()
+
+    def reader():
+        start_reading.wait(30)
+        s.settimeout(0.2)
+        while True:
+            try:
+                d = s.recv(65536)
+            except TimeoutError:
+                continue
+            except OSError:
+                return
+            if not d:
+                return
+            wire.extend(d)
+
+    def send(name: str, i: int, size: int, timeout: float):
+        try:
+            client.send_packet(_packet(i, 0, size), timeout=timeout)
+            results[name] = "ok"
+        except TimeoutError:
+            results[name] = "timeout"
+        except Exception as exc:  # noqa: BLE001
+            results[name] = f"error:{type(exc).__name__}: {exc}"
+
+    rt = threading.Thread(target=reader, daemon=True)
+    rt.start()
+    ta = threading.Thread(target=send, args=("A", 0, 400000, 60), daemon=True)
+    ta.start()
+    time.sleep(0.15)  # A fills the kernel buffers and blocks inside the lock
+    tb = threading.Thread(target=send, args=("B", 1, rng.choice([10, 3000]), rng.choice([0.1, 0.25])), daemon=True)
+    tb.start()
+    tb.join(20)
+    tc = threading.Thread(target=send, args=("C", 2, rng.choice([10, 3000, 30000]), 60), daemon=True)
+    tc.start()
+    time.sleep(0.1)
+    start_reading.set()
+    for t in (ta, tc):
+        t.join(60)
+    stuck = [t for t in (ta, tb, tc) if t.is_alive()]
+    client.close()
+    rt.join(60)
+    s.close()
+    if rt.is_alive() or stuck:
+        ctx.inconclusive_because("lock-timeout scenario: a thread exceeded its 60 s watchdog")
+        return None
+    if results.get("B") == "timeout":
+        ctx.count("sender_timed_out_waiting_for_the_send_lock")
+    elif results.get("B") != "ok":
+        return f"the sender that waited for the lock failed with {results.get('B')}"
+    for name in ("A", "C"):
+        if results.get(name) != "ok":
+            return f"sender {name} failed with {results.get(name)} after another sender had timed out waiting for the send lock"
+    wire_packets, why = parse_wire(bytes(wire))
+    if why:
+        return why + " (after a sender timed out waiting for the send lock)"
+    got = [(p["s"], len(p["pad"])) for p in wire_packets]
+    exp_senders = [0] + ([1] if results.get("B") == "ok" else []) + [2]
+    if sorted(x[0] for x in got) != sorted(exp_senders):
+        return f"wire holds packets of senders {[x[0] for x in got]}, expected {exp_senders}"
+    ctx.count("packets_checked", len(wire_packets))
+    return None
+
+
 def plan(tier: str, seed: int) -> list[dict]:
     n = 25 if tier == "quick" else 600
     th = 2 if tier == "quick" else 30
@@ -643,6 +720,12 @@ def run_shard(params: dict, ctx) -> None:
         ctx.case(True, "udp-threads", params["seed"], it)
         if why:
             ctx.violation("threads:udp", f"[UDPNetworkClient threads] {why}", {"target": "udp-threads", "seed": params["seed"], "it": it})
+    for it in range(2 if params["threads"] <= 2 else 12):
+        ctx.count("target:tcp-lock-timeout")
+        why = tcp_lock_timeout_case(ctx, rng)
+        ctx.case(True, "tcp-lock-timeout", params["seed"], it)
+        if why:
+            ctx.violation("threads:tcp-lock-timeout", f"[TCPNetworkClient threads] {why}", {"target": "tcp-lock-timeout", "seed": params["seed"], "it": it})
     # directed preemption over every line of the blocking send path
     pts = [(p, sk) for p in directed_points() for sk in (0, 2)]  # first and third time the line is reached
     for j in range(params["seed"] % 16, len(pts), 16):
